@@ -37,6 +37,9 @@ func apiPrograms(seed int64, n int, profiles []string, tweak func(i int, cfg *ge
 			cfg.KeySpace = 40
 			cfg.Txs = 6
 		}
+		if cfg.Profile != "big" && i%3 == 0 {
+			cfg.HeldReaders = 0.35 // read transactions kept open across later write transactions
+		}
 		if tweak != nil {
 			tweak(i, &cfg)
 		}
